@@ -241,7 +241,6 @@ func replayDist(in dseqInput) map[string]any {
 	return map[string]any{"n": in.N, "ok": true}
 }
 
-
 // ------------------------------------------------------------------ Distributor: concurrent histories (DistTrace.tla)
 
 // recordDist runs n random free-running scenarios on the views of one Queue / Deque backed distributor.
